@@ -2,6 +2,7 @@ import HdVerif.Proofs.VR
 import HdVerif.Proofs.Aliasing
 import HdVerif.Proofs.C20Tie
 import HdVerif.Proofs.C20Tables
+import HdVerif.Proofs.C20Tables.Corpus
 import HdVerif.Model.VRGuards
 import HdVerif.Generated.T20uid
 import HdVerif.Generated.T20sites
@@ -27,7 +28,7 @@ correspondence only and is labelled *support*):
   (`Generated/T20alias_*.lean`, 64 programs): under every valuation of the conditions the code branches on, and
   whatever a write does to the regions it hits, the caller's objects keep their content unless in-place conversion
   was asked for, a copying conversion returns a newly allocated object, a non-copying one the very object it was given;
-* `constructors_never_write_arguments`: the same for the `__init__` and alternative constructors of every public class (139 programs): no constructor
+* `constructors_never_write_arguments`: the same for the `__init__` and alternative constructors of every public class (153 programs): no constructor
   writes (a part of) an argument.
 -/
 namespace HdVerif.C20
@@ -484,7 +485,7 @@ theorem seg_pixel_array_never_written (e : Entry) (he : e ∈ alias_seg_sop) (hc
 theorem ctor_extraction_complete : allCtorSkipped = [] ∧ 100 ≤ allCtors.length := by decide +kernel
 
 /-- **constructors_never_write_arguments** (the first clause of C20 for constructors).  For every `__init__` and alternative
-constructor of the package's public classes (139 programs regenerated from the source, none skipped) — extracted
+constructor of the package's public classes (153 programs in 27 files regenerated from the source, none skipped) — extracted
 **interprocedurally**: own and inherited methods (`super().__init__` up to `SOPClass.__init__`), helper functions of the whole
 package (`_convert_legacy_to_enhanced`, the `_add_*` helpers of the presentation states, `collect_evidence`, `encode_frame`, …),
 closures and generators are inlined to depth 4; an internal callee that is handed a reference and cannot be inlined would put the
@@ -503,6 +504,20 @@ theorem constructors_never_write_arguments (e : Entry) (he : e ∈ allCtors)
   unfold constructorOk wellFormed at hok
   simp only [Bool.and_eq_true, decide_eq_true_eq] at hok
   exact neverWritesInputs_sound e hok.1.1 hok.2 W hW v ch w c hlt
+
+/-- **extractor_rejects_writing_constructors** (negative tests of the trusted extractor, second-round audit).  The soundness theorem
+below is about the extracted language; that the extractor abstracts Python faithfully is an assumption — tested here on a
+committed corpus (`translate/tests_C20/corpus.py`, regenerated through the extractor of this run as `Generated/T20neg.lean`): every
+one of the ≥ 150 synthetic constructors that write an argument in some run (loop-carried rebinding of any depth, augmented
+assignment through attributes and subscripts, results of external calls that alias their arguments — `copy.copy`, `.copy()`,
+`filter`, `min` / `max`, `itemgetter`, `get_item`, `pydicom.Sequence`, `pop()`, `np.require` —, positional `out`, closures and
+lambdas writing captured parameters or handed to `map` / `walk`, one stored element reached under two labels, `*args` / `**kwargs`,
+every mutator / view function of the first audit …) is rejected by `neverWritesInputs`, and every twin that writes nothing the
+caller can see is accepted.  (Constructors the extractor refuses — `exec`, … — would land on the skipped list.) -/
+theorem extractor_rejects_writing_constructors :
+    (negCorpus.all fun e => wellFormed e && !neverWritesInputs e) = true ∧ (twinCorpus.all constructorOk) = true ∧
+      twinRefused = [] ∧ 150 ≤ negCorpus.length ∧ 15 ≤ twinCorpus.length :=
+  C20Tables.corpus_ok
 
 /-- **analysis_sound** (the meta-theorem the table theorems rest on, restated here so that it cannot be dropped): for **every**
 program of the language, every world of the caller and every run, either the analysis logs a write into a parameter region (or
